@@ -64,3 +64,14 @@ def handleHFuzz (toks : List String) : String :=
   | _ => "bad-op"
 
 end Driver
+
+namespace Driver
+
+/-- C14 (`conc`): by `C14_noninterference` every concurrently served request answers what
+    it answers alone; the race-detector mode has no model-side content beyond that. -/
+def handleConc (toks : List String) : String :=
+  match toks with
+  | [_, _] => "same=1\traced=0"
+  | _ => "bad-op"
+
+end Driver
